@@ -36,6 +36,25 @@ def alphabet(spec, rng=None, size=10):
     return ops
 
 
+def seek_family(spec, first):
+    """read x k ; filter ; [read] ; seek(i, filtered | unfiltered) for EVERY i (so also the position the cursor is already at,
+    the last returned message and their neighbours) ; change of filters ; reads to the end (appended by the caller)"""
+    ms = [it for it in spec if it[0] == 'm']
+    n = len(ms)
+    al = alphabet(spec)
+    filters = [al[2], al[3], al[4], al[5], al[6], ['u'], None]
+    posts = [[['c']], [al[2]], [al[3], ['c']]]
+    out = []
+    for k in range(0, n + 1):
+        for F in filters:
+            for k2 in ((0, 1) if first else (0,)):
+                for i in range(0, n + 1):
+                    for filt in (True, False):
+                        for post in posts:
+                            out.append([['r']] * k + ([F] if F else []) + [['r']] * k2 + [['s', i, filt]] + post)
+    return out
+
+
 def random_op(rng, spec):
     ms = [it for it in spec if it[0] == 'm']
     ts = sorted({m[3] for m in ms if m[3] is not None}) or [80]
@@ -158,6 +177,11 @@ def judge(c, rec):
         return out
     steps = run['steps']
     by_off = {m['off']: m for m in rec['log']['msgs']}
+    if run.get('retained_same') is False or run.get('alias'):
+        out.append(('violation', {'outcome': 'retained-results-differ', 'class': 'pieces-aliased-across-results', 'op': 'r', 'after': 'any'},
+                    'messages kept by the caller are not what was returned: pieces sharing one object across results: %s; first difference (returned, later): %s'
+                    % (run.get('alias'), json.dumps(run.get('retained_first_diff'))[:300])))
+        return out
     for i, (st, (sres, _)) in enumerate(zip(steps, spec[1])):
         if st['res'] != sres:
             op = c['ops'][i]
@@ -264,6 +288,10 @@ def run(ctx):
                     continue
                 ops = [al[i] for i in t]
                 cases.append({'log': spec, 'flags': FLAGS, 'max_bytes': None, 'srcs': None, 'ops': ops + drain(spec), 'origin': 'exhaustive', 'nops': n})
+    # structured family around seeks (positions reached by reads, by filter changes, or already current)
+    for spec in BASE_LOGS:
+        for ops in seek_family(spec, spec is BASE_LOGS[0]):
+            cases.append({'log': spec, 'flags': FLAGS, 'max_bytes': None, 'srcs': None, 'ops': ops + drain(spec), 'origin': 'seek-family', 'nops': len(ops)})
     # random scripts of up to 30 operations on random logs (some with a source filter / byte limit)
     for i in range(1500 if ctx.thorough else 400):
         spec = rng.choice(BASE_LOGS) if rng.random() < 0.3 else K.random_log(rng, nmax=rng.choice([5, 9, 14]), junk_prob=0.2)
@@ -313,9 +341,10 @@ def run(ctx):
                     'results': [s['res'][0] if s['res'][0] != 'MSG' else res_offset(s['res']) for s in recs[c['id']]['impl']['run'].get('steps', [])]})
     ctx.coverage['rule'] = ('operation scripts on a fresh reader, each followed by reads to the end of iteration, each run twice on two fresh readers: '
                             'every sequence of <= %d operations over a 12-operation alphabet {read, 2 type filters, time slice, TimeRange, index slice, remove-untimed, '
-                            'clear, rewind, seek filtered, seek unfiltered, seek_to_eof} on 3 logs (length-%d sequences thinned to a third on two of the logs), plus random scripts of <= 30 '
+                            'clear, rewind, seek filtered, seek unfiltered, seek_to_eof} on 3 logs (length-%d sequences thinned to a third on two of the logs), the family '
+                            '"read x k; one of 7 filters; [read]; seek(i, filtered|unfiltered) for every i incl. the current position; clear / refilter; reads" for all k, i on the 3 logs, plus random scripts of <= 30 '
                             'operations (random keys incl. hints, negative / out-of-range slice bounds, zero step, invalid seeks) on random logs, some with a source filter or byte limit. '
-                            'Compared after every operation: result against the SPEC cursor and the MODEL; next_index_elem and len(index) against the MODEL (advisory). '
+                            'Compared after every operation: result against the SPEC cursor and the MODEL; the returned messages are inspected again after the whole script (retained results, object identity); next_index_elem and len(index) against the MODEL (advisory). '
                             'A case is distinct by (log, script, options).') % (L, L)
     ctx.coverage['exhaustive'] = False
     ctx.trusted_base += ['Coq 8.16.1 kernel + vm_compute', 'extraction (ExtrOcamlBasic only), ocaml/conv.ml + c11_driver.ml',
